@@ -2,7 +2,8 @@ SPECIFICATION PriceSpec
 CONSTANTS
   MAXU = 15
   W = 3
-  Denoms = {1, 2, 3, 7, 15}
-  Sinces = {0, 1, 2, 3, 4, 6, 7, 9, 15}
+  Denoms = {1, 2, 3, 15}
+  Mins = {0, 1, 5, 14, 15}
+  Sinces = {0, 2, 3, 4, 6, 7, 15}
 INVARIANTS FloorAtMin Direction Proportional Saturates MonotoneInUsage
 CHECK_DEADLOCK FALSE
